@@ -100,7 +100,8 @@ KxConf(tag, v, inner) == Hash(<<tag>> \o B32(v[2]) \o inner)
 KxKey(v, za, zb, klen) == KDF(B32(v[1]) \o B32(v[2]) \o za \o zb, klen)
 \* everything one honest run determines, from the responder's side: [K, SB, SA, V]; za/zb = Z of initiator/responder
 KxAll3(v, inner, za, zb, klen) == [k |-> KxKey(v, za, zb, klen), sb |-> KxConf(2, v, inner), sa |-> KxConf(3, v, inner), v |-> v]
-KxAll2(v, RA, RB, za, zb, klen) == KxAll3(v, KxInner(v, za, zb, RA, RB), za, zb, klen)
+\* V (= U) is the point at infinity: the agreement fails (B5 / A7), there are no values
+KxAll2(v, RA, RB, za, zb, klen) == IF v = Inf THEN [k |-> <<>>, sb |-> <<>>, sa |-> <<>>, v |-> Inf] ELSE KxAll3(v, KxInner(v, za, zb, RA, RB), za, zb, klen)
 KxResponder(dB, rB, RB, PA, RA, za, zb, klen) == KxAll2(SharedPt(TScalar(dB, rB, RB), PA, RA), RA, RB, za, zb, klen)
 KxInitiator(dA, rA, RA, PB, RB, za, zb, klen) == KxAll2(SharedPt(TScalar(dA, rA, RA), PB, RB), RA, RB, za, zb, klen)
 
